@@ -255,7 +255,7 @@ def _mk(path, readonly, cb):
 
 class _Sess:
     __slots__ = ("pid", "idx", "lib", "kind", "hkey", "invoke", "ret", "b0", "b1", "outcome", "exc", "puts", "put_results",
-                 "reads", "listings", "fault", "queue_left", "leak", "timeout", "cb", "caught", "inherited")
+                 "reads", "listings", "fault", "queue_left", "leak", "timeout", "cb", "caught", "inherited", "queue_keys", "shipped_dirty")
 
     def __init__(self):
         self.invoke = self.ret = self.b0 = self.b1 = None
@@ -270,6 +270,8 @@ class _Sess:
         self.leak = None
         self.caught = 0
         self.inherited = False
+        self.queue_keys = ()
+        self.shipped_dirty = False
 
     def good_puts(self):
         """puts that returned without raising (in an ok session these are the committed ones)"""
@@ -357,6 +359,7 @@ def _run_plan(plan, trace=False):
                 handles = []
                 hcb = [h["coll_bufsize"] for h in p["handles"]]
                 inherited = set()
+                shipped_dirty = set()     # handles of this process whose copy left with a non-empty write queue
                 for h in p["handles"]:
                     spelled = SPELLINGS[h["spelling"]].format(n=_libname(h["lib"]), cwd=kern.root)
                     if h["pickled"]:
@@ -409,9 +412,11 @@ def _run_plan(plan, trace=False):
                         S.exc = e
                     kern.set_phase(None)
                     try:
-                        S.queue_left = len(c._backend._write_queue)
+                        S.queue_keys = tuple(k_ for (k_, _v) in c._backend._write_queue)
+                        S.queue_left = len(S.queue_keys)
                     except Exception:  # noqa: BLE001
                         S.queue_left = 0
+                    S.shipped_dirty = sp["h"] in shipped_dirty
                     # L: read off the simulated OS what this process still holds
                     # (a descriptor on the LOCK file without a lock - fasteners keeps one after a timed-out
                     #  acquire - is neither a held lock nor "the file": not part of the statement)
@@ -423,6 +428,8 @@ def _run_plan(plan, trace=False):
                     for sh in p.get("ships", ()):
                         if sh["after"] == si:
                             mailbox[sh["slot"]] = (pickle.dumps(handles[sh["h"]]), hcb[sh["h"]])
+                            if len(handles[sh["h"]]._backend._write_queue):
+                                shipped_dirty.add(sh["h"])
             return main
 
         def _body(c, sp, S):
@@ -631,7 +638,7 @@ def _oracles(plan, kern, sched, sessions, marks, res, limit_hit):
     for lib in range(nlibs):
         committed = {}   # key -> value
         maybe = {}       # key -> set of acceptable values (as msgpack bytes) from failed sessions
-        dirty_handles = set()
+        dirty_handles = {}      # handle -> keys still sitting in its write queue after a failed session
         order = sorted((S for S in sessions if S.lib == lib and S.invoke is not None), key=lambda S: (S.b0 if S.b0 is not None else S.invoke))
         for S in order:
             if S.outcome == "timeout":
@@ -705,7 +712,12 @@ def _oracles(plan, kern, sched, sessions, marks, res, limit_hit):
             # writer effects
             if S.kind == "w":
                 cls = _fail_class(S)
-                explained = S.fault is not None or S.hkey in dirty_handles or S.inherited
+                # A handle that carries a write queue over from a failed session stores those items first.  That can only
+                # fail where a carried key can collide: a key somebody else may have stored (the shared keys, or one already
+                # observed as stored), or a queue that exists twice because the handle was pickled with it.
+                carried = dirty_handles.get(S.hkey, ())
+                explained = (S.fault is not None or S.inherited or S.shipped_dirty
+                             or any(k_ in committed or k_.startswith("shared") for k_ in carried))
                 seen_in_sess = set()
                 for (k, v) in S.puts:
                     dup = k in committed or k in maybe or k in seen_in_sess
@@ -747,8 +759,10 @@ def _oracles(plan, kern, sched, sessions, marks, res, limit_hit):
                         if k in committed:
                             continue
                         maybe.setdefault(k, set()).add(enc(v))
-                    if S.queue_left:
-                        dirty_handles.add(S.hkey)
+                if S.queue_left:
+                    dirty_handles[S.hkey] = S.queue_keys
+                else:
+                    dirty_handles.pop(S.hkey, None)
             elif S.outcome == "exc" and S.fault is None:
                 res.violate("S-read-session-failed-without-cause", f"C04|S-unexplained-read-failure|{type(S.exc).__name__}",
                             f"pid {S.pid} #{S.idx} (r) failed with {S.exc!r} although no fault was injected")
